@@ -78,6 +78,48 @@ def drain_facts(cx, pr, rep, cname, handle_pred, what, close_field='_wfp'):
         rep.ob('%s shutdown hook has a %s case' % (cname, k), n >= 1, W, '%s._post_process:missing-%s' % (cname, k))
 
 
+def check_ctor_order(cx, rep):
+    """a worker's constructor does not run a method of the object before it has given the fields that method reads their final
+    value: a later assignment would mean the method worked with a value the finished object does not have (the output stream
+    opened for another format / file name than the one the worker then exports)"""
+    n = 0
+    for cname, c in sorted(cx.model.mods[MOD]['classes'].items()):
+        init = next((f for f in c.body if isinstance(f, ast.FunctionDef) and f.name == '__init__'), None)
+        if init is None:
+            continue
+
+        def reads_of(mname, depth=0, seen=()):
+            r = cx.model.find_method(MOD, c, mname)
+            if r is None or mname in seen or cx.model.is_property(r[2]):
+                return set()
+            out = set()
+            for x in ast.walk(r[2]):
+                if isinstance(x, ast.Attribute) and isinstance(x.value, ast.Name) and x.value.id == 'self':
+                    if isinstance(x.ctx, ast.Load):
+                        out.add(x.attr)
+            if depth < 2:
+                for x in list(out):
+                    if cx.model.find_method(MOD, c, x) is not None and not cx.model.is_property(cx.model.find_method(MOD, c, x)[2]):
+                        out |= reads_of(x, depth + 1, seen + (mname,))
+            return out
+        for l in cx.leaves_of(MOD, c, init):
+            if l.outcome == 'raise':
+                continue
+            evs = l.effects
+            for i, e in enumerate(evs):
+                if e[0] == 'call' and e[1][0] == 'call' and e[1][1][0] == 'attr' and e[1][1][1] == ('self',) and not e[1][1][2].startswith('__'):
+                    mname = e[1][1][2]
+                    rd = reads_of(mname)
+                    if not rd:
+                        continue
+                    n += 1
+                    late = [e2 for e2 in evs[i + 1:] if e2[0] == 'store' and e2[1][0] == 'attr' and e2[1][1] == ('self',) and e2[1][2] in rd]
+                    rep.ob('a constructor calls a method of the object only after the fields that method reads have their final value', not late, cx.where(MOD, e[3]), '%s.__init__:%s-before-%s' % (cname, mname, late[0][1][2] if late else ''),
+                           'self.%s() reads self.%s, which the constructor assigns afterwards (line %s)' % (mname, late[0][1][2], getattr(late[0][3], 'lineno', '?')) if late else None,
+                           sample=dict(cls=cname, call=mname, reads=sorted(rd)[:6]))
+    rep.floor('constructor self-calls examined', n, 1)
+
+
 def check(repo, rep):
     cx = Ctx(repo)
     rep.cx = cx
@@ -86,11 +128,18 @@ def check(repo, rep):
         rep.unknown('worker protocol roles not identified')
         return
     check_stop_marker(cx, rep, pr)
+    check_ctor_order(cx, rep)
     W = lambda n: cx.where(MOD, n)
     # ================================================================= stream saver
     sc = cx.cls(MOD, 'StreamSaverWorker')
     sdefs = cx.field_defs(MOD, 'StreamSaverWorker')
     cachef = [f for f, ds in sdefs.items() if any(d['method'] == '__init__' and d['value'] == ('list', ()) for d in ds)]
+    if not cachef:
+        objf = [f for f, ds in sdefs.items() if any(d['method'] == '__init__' and d['value'][0] == 'call' and d['value'][1][0] == 'g' and (cx.model.lookup(d['value'][1]) or ('', None))[0] == 'class'
+                                                    and d['value'][1][1] not in ('io', 'util', 'core') for d in ds)]
+        if objf:
+            rep.unknown('StreamSaverWorker: no list-valued cache field; the blocks seem to be kept in a helper object (%s), whose methods the cache rules do not follow' % objf)
+            return
     rep.ob('the stream saver has one block cache', len(cachef) == 1, W(sc), 'StreamSaverWorker:cache-field', 'candidates %s' % cachef)
     if len(cachef) != 1:
         return
@@ -109,7 +158,8 @@ def check(repo, rep):
         if not inner:
             continue
         blk = inner[0][1]
-        rep.ob('saver.read(): the tokenizer sees exactly the block the wrapped reader produced', l.value == blk, cx.where(rd[0], l.node), 'StreamSaverWorker.read:returns', 'returns %s' % show(l.value)[:80])
+        isnone0 = any((g := norm_cmp(ct, tr)) and g[0] == 'is' and g[1] == blk and g[2] == ('c', None) for ct, tr, _ in l.conds)
+        rep.ob('saver.read(): the tokenizer sees exactly the block the wrapped reader produced', l.value == blk or (isnone0 and l.value == ('c', None)), cx.where(rd[0], l.node), 'StreamSaverWorker.read:returns', 'returns %s' % show(l.value)[:80])
         sends = [e[1] for _, e in self_calls(l, 'send')]
         isdata = any((g := norm_cmp(ct, tr)) and g[0] == 'is not' and g[1] == blk and g[2] == ('c', None) for ct, tr, _ in l.conds) or any(ct == blk and tr for ct, tr, _ in l.conds)
         isnone = any((g := norm_cmp(ct, tr)) and g[0] == 'is' and g[1] == blk and g[2] == ('c', None) for ct, tr, _ in l.conds) or any(ct == blk and not tr for ct, tr, _ in l.conds)
